@@ -25,6 +25,8 @@ pub(crate) use task::{
 };
 #[cfg(nexosim_verif)]
 pub(crate) use task::VerifStage;
+#[cfg(nexosim_verif)]
+pub use mt_executor::VInjector as VerifInjector;
 
 /// Unique identifier for executor instances.
 static NEXT_EXECUTOR_ID: AtomicUsize = AtomicUsize::new(0);
